@@ -443,6 +443,7 @@ def check_cases(res: CheckResult, prop_clauses: Dict[str, set], cases: List[dict
                     got = ("exc", exc)
                 if uses_c.get(key) and got[0] == "violation":
                     # the same violation on a twin whose closure never held another value: the identical message
+                    saved_calls = list(mod.ident_calls)
                     try:
                         mod.call(n, xv, yv, twin=True)
                         twin_msg = None  # type: Any
@@ -450,6 +451,7 @@ def check_cases(res: CheckResult, prop_clauses: Dict[str, set], cases: List[dict
                         twin_msg = str(exc)
                     except Exception as exc:  # noqa
                         twin_msg = repr(exc)
+                    mod.ident_calls = saved_calls      # (the twin's own calls of ident() do not count)
                     if twin_msg is not None and _strip_location(twin_msg) != _strip_location(got[1]):
                         _viol(res, prop_clauses, "msg.depends_on_earlier_calls",
                               "`{}` x={!r} y={!r}: the message differs after an earlier call during which the closure "
